@@ -131,8 +131,12 @@ def gen_query(rng, world, heavy_w):
             q["kw"] = rng.choice([{}, {"psd_model": "BJH"}, {"psd_model": "DH"}, {"branch": "ads"}, {"pore_geometry": "slit"},
                                   {"thickness_model": "Halsey"}, {"kelvin_model": "Kelvin-KJS", "branch": "ads"}, {"psd_model": "nope"}])
         elif what == "psd_microporous":
+            ar_like = {"molecular_diameter": 0.34, "polarizability": 1.63e-3, "magnetic_susceptibility": 3.25e-8,
+                       "surface_density": 8.52e18, "liquid_density": 1.4, "adsorbate_molar_mass": 39.948}
+            solid = {"molecular_diameter": 0.31, "polarizability": 1.9e-3, "magnetic_susceptibility": 9.5e-8, "surface_density": 2.4e19}
             q["kw"] = rng.choice([{}, {"psd_model": "HK-CY"}, {"psd_model": "RY"}, {"pore_geometry": "cylinder"}, {"material_model": "AlSiOxideIon"},
-                                  {"p_limits": [0, 0.2]}])
+                                  {"p_limits": [0, 0.2]}, {"adsorbate_model": ar_like}, {"adsorbate_model": ar_like, "psd_model": "RY"},
+                                  {"material_model": solid}, {"material_model": "AlPhOxideIon", "pore_geometry": "sphere"}])
         elif what == "psd_dft":
             q["kw"] = rng.choice([{}, {"bspline_order": 3}, {"branch": "des"}])
     elif g == "enth":
@@ -156,6 +160,12 @@ def gen_query(rng, world, heavy_w):
         q.update(q="model_iso", iso=rng.choice(fam),
                  model=rng.choice(["Langmuir", "Henry", "Toth", "DSLangmuir", "Freundlich", ["Henry", "Langmuir"], "Nope"] + (["guess"] if heavy else [])),
                  kw=rng.choice([{}, {}, {"branch": "des"}]))
+        if isinstance(q["model"], str) and q["model"] in ("Langmuir", "Henry", "Toth") and rng.random() < 0.4:
+            bounds = {"Langmuir": {"K": [0.0, 0.5], "n_m": [0.0, 2.5]}, "Henry": {"K": [0.0, 0.5]},
+                      "Toth": {"K": [0.0, 0.5], "n_m": [0.0, 2.5], "t": [0.1, 1.0]}}[q["model"]]
+            guess = {"Langmuir": {"K": 0.25, "n_m": 2.0}, "Henry": {"K": 0.25}, "Toth": {"K": 0.25, "n_m": 2.0, "t": 0.9}}[q["model"]]
+            q["kw"] = rng.choice([{"param_bounds": bounds}, {"param_bounds": bounds, "param_guess": guess}, {"param_guess": guess},
+                                  {"optimization_params": {"max_nfev": 50}}])
     elif g == "iast":
         a = fam[-1]
         b = r.get("partner", r.get("model"))
@@ -220,6 +230,20 @@ def gen_related(rng, world, prev):
             # another isotherm of the same gas shares the Adsorbate object (and its CoolProp state)
             same = [i for i, sp in enumerate(world["isos"]) if sp["adsorbate"] == world["isos"][prev["iso"]]["adsorbate"]]
             q["iso"] = rng.choice(same)
+        return q
+    if g == "n2char" and prev["q"] == "psd_microporous":
+        # the same analysis with other adsorbate / adsorbent parameter dictionaries (or the same ones again)
+        ar_like = {"molecular_diameter": 0.34, "polarizability": 1.63e-3, "magnetic_susceptibility": 3.25e-8,
+                   "surface_density": 8.52e18, "liquid_density": 1.4, "adsorbate_molar_mass": 39.948}
+        solid = {"molecular_diameter": 0.31, "polarizability": 1.9e-3, "magnetic_susceptibility": 9.5e-8, "surface_density": 2.4e19}
+        q["kw"] = rng.choice([{}, {"adsorbate_model": ar_like}, {"material_model": solid}, {"adsorbate_model": ar_like, "material_model": solid},
+                              {"psd_model": "RY"}, {"material_model": "AlSiOxideIon"}, dict(prev.get("kw") or {})])
+        return q
+    if g == "fit" and isinstance(prev.get("model"), str):
+        # the same model fitted again without / with other bounds, or the Henry-constant analysis that fits a Henry model
+        if rng.random() < 0.3:
+            return {"g": "henry", "q": "initial_henry_slope", "iso": prev["iso"], "kw": {}}
+        q["kw"] = rng.choice([{}, {}, {"optimization_params": {"max_nfev": 50}}])
         return q
     if g == "n2char":
         # same analysis again, or its sibling that shares a cached thickness curve / kernel
@@ -414,10 +438,6 @@ def snapshot(objs):
     seen_mat = {}
     for iso in objs:
         s = {"type": type(iso).__name__}
-        try:
-            s["iso_id"] = iso.iso_id
-        except Exception as e:
-            s["iso_id"] = "ERR:" + type(e).__name__
         s["labels"] = {k: getattr(iso, k, "<missing>") for k in iso._unit_params}
         s["_temperature"] = dg.canon(iso._temperature)
         s["meta"] = dg.canon(iso.properties)
@@ -427,6 +447,11 @@ def snapshot(objs):
         if hasattr(iso, "model"):
             s["model"] = dg.canon(iso.model.to_dict())
             s["branch"] = getattr(iso, "branch", None)
+        # the identifier is read LAST: it is itself a read-only query and must not change what was captured above
+        try:
+            s["iso_id"] = iso.iso_id
+        except Exception as e:
+            s["iso_id"] = "ERR:" + type(e).__name__
         s["ads_obj"] = id(iso.adsorbate)
         s["mat_obj"] = id(iso.material)
         seen_ads[id(iso.adsorbate)] = iso.adsorbate
@@ -487,6 +512,12 @@ def _sut_factory(world, scratch):
         objs = _build(world)
 
         def handler(msg):
+            if msg["cmd"] == "observe":
+                # taking the snapshot (labels, data, model, metadata, then the identifier) is itself a sequence of
+                # read-only accesses: doing it twice on the fresh world must give the same picture
+                a = snapshot(objs)
+                b = snapshot(objs)
+                return {"changed": snapshot_diff(a, b)}
             if msg["cmd"] == "q":
                 before = snapshot(objs)
                 out = exec_query(objs, msg["q"], scratch)
@@ -559,7 +590,14 @@ def execute(ctx, world, rng=None, steps=None, cfg=None):
 
     try:
         mutators = []
+        obs = sut.call({"cmd": "observe"}, timeout=120)
+        if obs["changed"]:
+            viol = {"kind": "C04/impure-query", "signature": f"C04/impure-query by=iso_id/to_dict changed={','.join(obs['changed'])}",
+                    "detail": {"query": "reading identifier, dictionary, data and labels of the freshly built world twice",
+                               "changed": obs["changed"]}}
         n = cfg["n_steps"] if steps is None else len(steps)
+        if viol is not None:
+            n = 0
         prev = None
         prev_err = False
         pending = None
@@ -573,7 +611,7 @@ def execute(ctx, world, rng=None, steps=None, cfg=None):
                     pending = copy.deepcopy(prev)
                 elif cfg["mutators"] and rng.random() < 0.12:
                     q = gen_mutator(rng, world)
-                elif prev is not None and prev["g"] in ("interp", "spread", "adsorbate", "n2char") and rng.random() < cfg["related_p"]:
+                elif prev is not None and prev["g"] in ("interp", "spread", "adsorbate", "n2char", "fit") and rng.random() < cfg["related_p"]:
                     q = gen_related(rng, world, prev)
                 else:
                     q = gen_query(rng, world, cfg["heavy_w"])
